@@ -24,7 +24,7 @@ ASSUMPTIONS = [
     'parameters declared per_instance=False are exempt from the metadata-isolation clause (they opted out)',
 ]
 REQUIRED = {'view_checks': 20000, 'instances': 1000, 'class_sets': 500, 'metadata_edits': 500, 'inplace_mutations': 500, 'instance_updates': 200,
-            'falsy_instance_cases': 100, 'ctor_pending_references': 50}
+            'falsy_instance_cases': 100, 'ctor_pending_references': 50, 'shared_blocks': 30}
 
 _st = {}
 _n = [0]
@@ -262,7 +262,7 @@ def run_case(idx, rng, P, rep):
                     snap[('inst', ii, p, a)] = list(v) if a == 'objects' else copy.deepcopy(v)
         return snap
 
-    def new_instance():
+    def new_instance(share=None):
         ci = rng.randrange(len(classes))
         K = classes[ci]
         kw = {}
@@ -298,6 +298,15 @@ def run_case(idx, rng, P, rep):
                 got = view(o, p)
                 cv = class_view(ci, p)
                 rep.count('instantiate_copies')
+                if share is not None and (ci, p) in share['cache']:
+                    # documented: inside one shared_parameters block the objects of one class share the instantiated value
+                    rep.count('shared_block_reuses')
+                    if got is not share['cache'][(ci, p)]:
+                        viol('shared-block/value-not-shared-inside-block', f'second {K.__name__}() inside one shared_parameters block got its own {p}')
+                    inst['own'][p] = got
+                    continue
+                if share is not None:
+                    share['cache'][(ci, p)] = got
                 if got is cv and mutable_ids(cv):
                     viol('instantiate/default-not-copied', f'new {K.__name__}().{p} is the class default object itself')
                 shared = mutable_ids(got) & mutable_ids(cv)
@@ -326,7 +335,16 @@ def run_case(idx, rng, P, rep):
     new_instance()
     for step in range(rng.randint(5, P['maxlen'])):
         c = rng.random()
-        if c < 0.12 and len(insts) < 5:
+        if c < 0.03 and len(insts) < 6:
+            # several objects created inside one shared_parameters block share their instantiated values with each
+            # other - and with nobody created before or after the block
+            kinds.append('shared_block')
+            rep.count('shared_blocks')
+            share = dict(cache={})
+            with param.shared_parameters():
+                for _ in range(rng.randint(2, 3)):
+                    new_instance(share)
+        elif c < 0.12 and len(insts) < 5:
             kinds.append('new')
             new_instance()
         elif c < 0.27:
